@@ -1,4 +1,5 @@
 import Xo.Lemmas.LayoutRT
+import Xo.Lemmas.RefGraphOps
 import Xo.Lemmas.Path
 /-! C01 — values written at construction are read back exactly (property theorems only).
 Reference-free grammar, nested to any depth; every conforming value; any buffer image and any placement with room.
@@ -81,5 +82,20 @@ theorem C01_read_leaf_at_path (t : Ty) (v : Val) (hw : t.WF) (hc : Conf t v) (hs
 example : getAt (.struct [.string, .array (.struct [.scalar 2, .string]) [none] [0], .scalar 8])
       (.struct [.str [97], .arr [2] [.struct [.bits 5, .str [1,2,3,4,5,6,7,8,9]], .struct [.bits 6, .str []]], .bits 7]) [1, 1, 0]
       = some 6 := rfl
+
+
+/-! ### objects that hold references (node model `Xo/Model/RefGraph.lean`, component `rg`) -/
+
+/-- **construct, then read - references and union references included**: in every state satisfying the reference-graph invariant
+(every reachable state), wherever the allocator places the new node (also after growth), every scalar field reads the value given
+for it (0 when none was given), every reference field reads null - a union reference with member index -1.  What a reference reads
+after it has been bound is `C08_bind_existing_aliases` / `C08_bind_value_fresh` / `C08_bind_null`. -/
+theorem C01_new_node_reads (u : RG.Univ) (s s1 : RG.St) (hi : RG.Inv u s) (c : Nat) (vs : List Nat) (o : Nat)
+    (h : RG.newObj u s c vs = (s1, some o)) :
+    ∃ cl, u[c]? = some cl ∧ ∀ k fk, cl[k]? = some fk →
+      (fk = .scal → fromLE (readAt s1.b.mem (o + RG.foff cl k) 8) = vs.getD (RG.scalIdx cl k) 0 % 256 ^ 8) ∧
+      (fk ≠ .scal → deref s1.b.mem (o + RG.foff cl k) = none) ∧
+      (∀ cs, fk = .uref cs → memberIdx s1.b.mem (o + RG.foff cl k) = -1) :=
+  RG.newObj_reads hi h
 
 end Lay
